@@ -36,3 +36,15 @@ Example C07_depth_examples :
   (exists e, compile_d value (list N) 1 (Pratt.TId [120%N] :: flat_map (fun _ => [Pratt.TBin Pratt.Plus; Pratt.TId [120%N]]) (seq 0 40)) = Some (Pratt.Ok e)).
 Proof. repeat split; try reflexivity; eexists; vm_compute; reflexivity. Qed.
 Print Assumptions C07_recursion_depth_bounded.
+(* bounded output ("in bounded time" has a size half): a text of n characters scans to at most n tokens, the parser builds at most one node per token, so the tree compile
+   returns has at most n nodes - for every text *)
+Require Import IO SizeFront.
+Theorem C07_token_count_bounded : forall s ts, scan_raw s = Scan.Ok ts -> (1 <= length ts <= length s)%nat.
+Proof. exact scan_token_count. Qed.
+Theorem C07_tree_no_larger_than_tokens : forall (ts : list (Pratt.token value (list N))) e, Pratt.compile value (list N) ts = Pratt.Ok e -> (Pratt.nodes value (list N) e <= length ts)%nat.
+Proof. exact parse_node_count. Qed.
+Theorem C07_tree_no_larger_than_text : forall s e, Front.compile s = COk e -> (nodes e <= length s)%nat.
+Proof. exact compile_size. Qed.
+Example C07_size_example : exists e, Front.compile [40;49;43;50;41;42;120]%N = COk e /\ nodes e = 5%nat.
+Proof. eexists. split; [vm_compute; reflexivity | reflexivity]. Qed.
+Print Assumptions C07_tree_no_larger_than_text.
